@@ -19,7 +19,10 @@ import (
 	"verif/internal/wk"
 )
 
-type c11StepData struct{ token int64 }
+type c11StepData struct {
+	token int64
+	ch    chan int64 // rendezvous step: the signal handler hands a value to the running step
+}
 
 type c11Rec struct {
 	mu        sync.Mutex
@@ -68,8 +71,10 @@ func c11BuildPlugin(r *wk.Rand) *c11Plugin {
 	cfg := gen.Full()
 	cfg.Structs, cfg.TypedEnum, cfg.GoodDefaults, cfg.NilDisplay = false, false, true, false
 	p := &c11Plugin{rec: &c11Rec{}, inShape: map[string]*gen.Shape{}, outShape: map[string]map[string]*gen.Shape{}, sigShape: map[string]map[string]*gen.Shape{}, behaviour: map[string]*c11Behaviour{}}
-	mk := func() (*gen.Shape, *schema.ScopeSchema) {
+	mk := func(structs ...bool) (*gen.Shape, *schema.ScopeSchema) {
 		for {
+			cfg := cfg
+			cfg.Structs = len(structs) > 0 && structs[0]
 			sh := gen.GenScope(r, cfg)
 			if t, ok, _ := buildGuarded(sh); ok {
 				return sh, t.(*schema.ScopeSchema)
@@ -86,7 +91,7 @@ func c11BuildPlugin(r *wk.Rand) *c11Plugin {
 		outs := map[string]*schema.StepOutputSchema{}
 		for oi := 0; oi <= r.Intn(3); oi++ {
 			oid := fmt.Sprintf("out%d", oi)
-			oS, oT := mk()
+			oS, oT := mk(oi%2 == 1) // every second output may contain struct-mapped objects
 			p.outShape[id][oid] = oS
 			outs[oid] = schema.NewStepOutputSchema(oT, nil, oi > 0)
 		}
@@ -116,8 +121,87 @@ func c11BuildPlugin(r *wk.Rand) *c11Plugin {
 				return b.outputID, b.data
 			}))
 	}
+	// a step whose signal handler hands a value to the running step handler over an unbuffered channel in the
+	// per-run step data (the usual way a signal reaches its step): neither can finish without the other
+	empty := func() *schema.ScopeSchema {
+		return gen.Build(&gen.Shape{Kind: gen.KScope, Root: "E", Objects: []*gen.Shape{{Kind: gen.KObject, ID: "E"}}}).(*schema.ScopeSchema)
+	}
+	steps = append(steps, schema.NewCallableStepWithSignals[*c11StepData, any]("rdv", empty(),
+		map[string]*schema.StepOutputSchema{"done": schema.NewStepOutputSchema(empty(), nil, false)},
+		map[string]schema.CallableSignal{"poke": schema.NewCallableSignal[*c11StepData, any]("poke", empty(), nil, func(hctx context.Context, d *c11StepData, _ any) {
+			if entered, ok := hctx.Value(c11EnteredKey{}).(chan struct{}); ok {
+				close(entered)
+			}
+			d.ch <- d.token
+		})}, nil, nil,
+		func() *c11StepData { return &c11StepData{token: p.rec.inits.Add(1), ch: make(chan int64)} },
+		func(_ context.Context, d *c11StepData, _ any) (string, any) {
+			if v := <-d.ch; v != d.token {
+				return "wrong-step-data", nil
+			}
+			return "done", map[string]any{}
+		}))
 	p.schema = schema.NewCallableSchema(steps...)
 	return p
+}
+
+type c11EnteredKey struct{}
+
+// c11Rendezvous: for one run ID the step call and its signal arrive in the given order (the later one only once
+// the earlier one is inside its handler, when that is observable) and must both return: the signal handler
+// blocks until the step handler takes its value. Decided by the quiescence monitor, not by a timeout.
+func c11Rendezvous(c *wk.Ctx, prop string, pl *c11Plugin, ctx context.Context, run string, signalFirst bool, sched []rig.PauseAt) bool {
+	var done atomic.Int32
+	var outID atomic.Value
+	var sigErr, stepErr atomic.Value
+	entered := make(chan struct{})
+	callSignal := func() {
+		defer done.Add(1)
+		if err := pl.schema.CallSignal(context.WithValue(ctx, c11EnteredKey{}, entered), run, "rdv", "poke", map[string]any{}); err != nil {
+			sigErr.Store(err.Error())
+		}
+	}
+	callStep := func() {
+		defer done.Add(1)
+		id, _, err := pl.schema.CallStep(ctx, run, "rdv", map[string]any{})
+		outID.Store(id)
+		if err != nil {
+			stepErr.Store(err.Error())
+		}
+	}
+	rig.Y.Arm(sched, false)
+	if signalFirst {
+		go callSignal()
+		go func() { <-entered; callStep() }() // the step arrives while the signal handler is waiting for it
+	} else {
+		go callStep()
+		go callSignal()
+	}
+	res := rig.Monitor(func() bool { return done.Load() == 2 }, nil, 20*time.Second)
+	rig.Y.Disarm()
+	c.Count("rendezvous_rounds")
+	wit := map[string]any{"run": run, "signal_arrives_first": signalFirst, "schedule": fmt.Sprint(sched)}
+	switch res.Outcome {
+	case "done":
+	case "deadlock":
+		wit["blocked"] = res.Snap.Summary()
+		c.Violation(prop+":step-and-signal-deadlock", "a signal handler that hands a value to its running step and that step's call never return: every goroutine is blocked", wit)
+		rig.Settle(200 * time.Millisecond)
+		return false
+	default:
+		c.Inconclusive("rendezvous round: " + res.Outcome)
+		return false
+	}
+	if e, _ := sigErr.Load().(string); e != "" {
+		c.Violation(prop+":rendezvous:signal-error", "CallSignal with valid data failed: "+e, wit)
+		return false
+	}
+	if id, _ := outID.Load().(string); id != "done" {
+		e, _ := stepErr.Load().(string)
+		c.Violation(prop+":rendezvous:wrong-step-data", fmt.Sprintf("the step handler did not get its own run's value from the signal handler (output %q, %s)", id, e), wit)
+		return false
+	}
+	return true
 }
 
 func (p *c11Plugin) stepIDs() []string {
@@ -150,12 +234,15 @@ func runC11(c *wk.Ctx) {
 		n = c.N(120, 3000)
 	}
 	c.Cases(n, func(idx int64, r *wk.Rand) {
+		r0 := *r
 		p := c11BuildPlugin(r)
+		// an identical plugin nothing has been called on yet (same PRNG state, so the same shapes)
+		fresh := func() *c11Plugin { rc := r0; return c11BuildPlugin(&rc) }
 		env := &gen.Env{}
 		if c.Variant == "plain" {
 			c11Sequential(c, ctx, r, p, env, idx)
 		}
-		c11Concurrent(c, ctx, r, p, env, idx)
+		c11Concurrent(c, ctx, r, p, fresh, env, idx)
 	})
 }
 
@@ -271,6 +358,18 @@ func c11Sequential(c *wk.Ctx, ctx context.Context, r *wk.Rand, p *c11Plugin, env
 						c.Violation("C11:wrong-output-id", fmt.Sprintf("CallStep returned output ID %q, the handler returned %q", gotID, oid), wit)
 					} else if gotData == nil {
 						c.Violation("C11:output-data-missing", "CallStep returned no data for a valid output", wit)
+					} else {
+						// "the serialized output": what the output schema's own Serialize makes of the handler's value
+						var want any
+						var serr error
+						if pn, _, _, _ := wk.Guard(func() { want, serr = p.schema.StepsValue[stepID].Outputs()[oid].Schema().Serialize(cmpx.DeepCopy(outData)) }); !pn && serr == nil {
+							c.Count("outputs_compared_with_serialized_form")
+							if cmpx.Canon(want) != cmpx.Canon(gotData) {
+								wit["expected"] = clipStr(cmpx.Canon(want), 600)
+								wit["returned"] = clipStr(cmpx.Canon(gotData), 600)
+								c.Violation("C11:output-not-serialized:"+diffOf(want, gotData), "CallStep did not return the serialized form of the handler's output: "+diffOf(want, gotData), wit)
+							}
+						}
 					}
 				case "undeclared":
 					var ioe schema.InvalidOutputError
@@ -355,7 +454,7 @@ func c11Sequential(c *wk.Ctx, ctx context.Context, r *wk.Rand, p *c11Plugin, env
 }
 
 // c11Concurrent: the step call and signal calls of several run IDs arrive from many goroutines at once.
-func c11Concurrent(c *wk.Ctx, ctx context.Context, r *wk.Rand, p *c11Plugin, env *gen.Env, idx int64) {
+func c11Concurrent(c *wk.Ctx, ctx context.Context, r *wk.Rand, p *c11Plugin, fresh func() *c11Plugin, env *gen.Env, idx int64) {
 	stepID := p.stepIDs()[0]
 	sigIDs := sortedKeys(p.sigShape[stepID])
 	// only inputs that are accepted in isolation are raced (the sequential part judges acceptance)
@@ -384,7 +483,7 @@ func c11Concurrent(c *wk.Ctx, ctx context.Context, r *wk.Rand, p *c11Plugin, env
 		run    string
 		signal string // "" = the step call
 	}
-	round := func(nruns int, sched []rig.PauseAt, serial bool) (hits map[int]int, ok bool) {
+	round := func(pl *c11Plugin, nruns int, sched []rig.PauseAt, serial bool) (hits map[int]int, ok bool) {
 		var ops []op
 		for k := 0; k < nruns; k++ {
 			run := fmt.Sprintf("c-%d-%d-%d", idx, r.Intn(1<<30), k)
@@ -402,10 +501,10 @@ func c11Concurrent(c *wk.Ctx, ctx context.Context, r *wk.Rand, p *c11Plugin, env
 		if len(ops) > 16 {
 			ops = ops[:16]
 		}
-		p.rec.mu.Lock()
-		b1, b2 := len(p.rec.stepCalls), len(p.rec.sigCalls)
-		p.rec.mu.Unlock()
-		initsBefore := p.rec.inits.Load()
+		pl.rec.mu.Lock()
+		b1, b2 := len(pl.rec.stepCalls), len(pl.rec.sigCalls)
+		pl.rec.mu.Unlock()
+		initsBefore := pl.rec.inits.Load()
 		var wg sync.WaitGroup
 		var done atomic.Int32
 		start := make(chan struct{})
@@ -432,9 +531,9 @@ func c11Concurrent(c *wk.Ctx, ctx context.Context, r *wk.Rand, p *c11Plugin, env
 				}
 				if o.signal == "" {
 					// the step's input carries the run ID, so the recorder can attribute the token
-					_, _, _ = p.schema.CallStep(context.WithValue(ctx, c11RunKey{}, o.run), o.run, stepID, cmpx.DeepCopy(inRaw))
+					_, _, _ = pl.schema.CallStep(context.WithValue(ctx, c11RunKey{}, o.run), o.run, stepID, cmpx.DeepCopy(inRaw))
 				} else {
-					_ = p.schema.CallSignal(context.WithValue(ctx, c11RunKey{}, o.run), o.run, stepID, o.signal, cmpx.DeepCopy(sigRaw[o.signal]))
+					_ = pl.schema.CallSignal(context.WithValue(ctx, c11RunKey{}, o.run), o.run, stepID, o.signal, cmpx.DeepCopy(sigRaw[o.signal]))
 				}
 			}()
 		}
@@ -466,14 +565,14 @@ func c11Concurrent(c *wk.Ctx, ctx context.Context, r *wk.Rand, p *c11Plugin, env
 		for _, o := range ops {
 			runs[o.run] = true
 		}
-		if got := p.rec.inits.Load() - initsBefore; got != int64(len(runs)) {
+		if got := pl.rec.inits.Load() - initsBefore; got != int64(len(runs)) {
 			c.Violation("C11:initializer-count", fmt.Sprintf("%d run IDs were used but the per-run initialiser ran %d times", len(runs), got), wit)
 			return hits, false
 		}
 		// every handler invocation of one run saw one and the same step data, no two runs share one
-		p.rec.mu.Lock()
-		calls := append(append([]c11Call{}, p.rec.stepCalls[b1:]...), p.rec.sigCalls[b2:]...)
-		p.rec.mu.Unlock()
+		pl.rec.mu.Lock()
+		calls := append(append([]c11Call{}, pl.rec.stepCalls[b1:]...), pl.rec.sigCalls[b2:]...)
+		pl.rec.mu.Unlock()
 		if len(calls) != len(ops) {
 			c.Violation("C11:concurrent-handler-invocations", fmt.Sprintf("%d valid calls were issued, %d handler invocations were recorded", len(ops), len(calls)), wit)
 			return hits, false
@@ -502,14 +601,36 @@ func c11Concurrent(c *wk.Ctx, ctx context.Context, r *wk.Rand, p *c11Plugin, env
 		c.Eval(wk.Hash64(fmt.Sprint(ops), fmt.Sprint(sched), fmt.Sprint(serial)), true)
 		return hits, true
 	}
+	newPlugin := func() *c11Plugin {
+		q := fresh()
+		q.behaviour[stepID].set("no-such-output", nil)
+		return q
+	}
+	// first use: the very first calls a plugin schema ever sees arrive together (3 fresh plugins)
+	for k := 0; k < 3; k++ {
+		c.Count("first_use_rounds")
+		if _, ok := round(newPlugin(), 1+r.Intn(3), nil, false); !ok {
+			return
+		}
+	}
+	// a signal handler that hands a value to its running step: both arrival orders
+	for k := 0; k < 4; k++ {
+		pl := p
+		if k >= 2 {
+			pl = newPlugin()
+		}
+		if !c11Rendezvous(c, "C11", pl, ctx, fmt.Sprintf("rdv-%d-%d", idx, k), k%2 == 0, nil) {
+			return
+		}
+	}
 	// every call completes before the next arrives, in shuffled arrival orders
 	for k := 0; k < 3; k++ {
-		if _, ok := round(1+r.Intn(2), nil, true); !ok {
+		if _, ok := round(p, 1+r.Intn(2), nil, true); !ok {
 			return
 		}
 	}
 	// baseline round(s), then every reached yield point of the schema package paused singly
-	hits, okBase := round(1+r.Intn(3), nil, false)
+	hits, okBase := round(p, 1+r.Intn(3), nil, false)
 	if !okBase {
 		return
 	}
@@ -526,15 +647,20 @@ func c11Concurrent(c *wk.Ctx, ctx context.Context, r *wk.Rand, p *c11Plugin, env
 			}
 			return sites[i].Hit < sites[j].Hit
 		})
-		for _, s := range sites {
-			if _, ok := round(1+r.Intn(2), []rig.PauseAt{s}, false); !ok {
+		for si, s := range sites {
+			pl := p
+			if si%3 == 0 {
+				pl = newPlugin() // the paused statement may belong to a first-use path
+				c.Count("paused_rounds_on_a_fresh_plugin")
+			}
+			if _, ok := round(pl, 1+r.Intn(2), []rig.PauseAt{s}, false); !ok {
 				return
 			}
 			c.Count("paused_rounds")
 		}
 	} else {
 		for k := 0; k < 6; k++ {
-			if _, ok := round(1+r.Intn(4), nil, false); !ok {
+			if _, ok := round(p, 1+r.Intn(4), nil, false); !ok {
 				return
 			}
 		}
